@@ -1,0 +1,40 @@
+//go:build verif
+
+package verifhook
+
+import (
+	"os"
+	"strings"
+	"time"
+)
+
+// With VERIF_PAUSE_AT=<point>[,<point>...] and VERIF_PAUSE_FILE=<path> in the
+// environment, a process built with the tag parks every goroutine that reaches
+// one of the points for as long as the file exists (used by the verification
+// harness to hold the real binary at a point, e.g. inside start-up recovery).
+func init() {
+	points := os.Getenv("VERIF_PAUSE_AT")
+	file := os.Getenv("VERIF_PAUSE_FILE")
+	if points == "" || file == "" {
+		return
+	}
+	set := map[string]bool{}
+	for _, p := range strings.Split(points, ",") {
+		set[p] = true
+	}
+	Set(func(point string, kv ...any) {
+		if !set[point] {
+			return
+		}
+		if f, err := os.OpenFile(file+".reached", os.O_CREATE|os.O_WRONLY|os.O_APPEND, 0o644); err == nil {
+			f.WriteString(point + "\n")
+			f.Close()
+		}
+		for {
+			if _, err := os.Stat(file); err != nil {
+				return
+			}
+			time.Sleep(2 * time.Millisecond)
+		}
+	})
+}
